@@ -7,7 +7,9 @@
 //! This module parses eBPF assembly language source code.
 
 use combine::parser::char::{alpha_num, char, digit, hex_digit, letter, spaces, string};
+use combine::error::StreamError;
 use combine::stream::position::{self};
+use combine::stream::StreamErrorFor;
 #[cfg(feature = "std")]
 use combine::EasyParser;
 use combine::{
@@ -56,11 +58,26 @@ where
         Some('-') => -1,
         _ => 1,
     });
-    let hex = string("0x")
-        .with(many1(hex_digit()))
-        .map(|x: String| u64::from_str_radix(&x, 16).unwrap() as i64);
-    let dec = many1(digit()).map(|x: String| x.parse::<i64>().unwrap());
-    (sign, attempt(hex).or(dec)).map(|(s, x)| s * x)
+    let out_of_range = || StreamErrorFor::<I>::message_static_message("integer out of range");
+    // Hexadecimal literals denote the bits of a 64-bit value; decimal literals denote a magnitude.
+    let hex = attempt(string("0x").with(many1(hex_digit()))).and_then(move |x: String| {
+        u64::from_str_radix(&x, 16)
+            .map(|v| (v, true))
+            .map_err(|_| out_of_range())
+    });
+    let dec = many1(digit())
+        .and_then(move |x: String| x.parse::<u64>().map(|v| (v, false)).map_err(|_| out_of_range()));
+    (sign, hex.or(dec)).and_then(move |(s, (x, is_hex)): (i64, (u64, bool))| {
+        if is_hex {
+            Ok(s.wrapping_mul(x as i64))
+        } else if s == 1 && x <= i64::MAX as u64 {
+            Ok(x as i64)
+        } else if s == -1 && x <= i64::MAX as u64 + 1 {
+            Ok((x as i64).wrapping_neg())
+        } else {
+            Err(out_of_range())
+        }
+    })
 }
 
 fn register<I>() -> impl Parser<I, Output = i64>
@@ -70,7 +87,10 @@ where
 {
     attempt(char('r').skip(not_followed_by(letter())))
         .with(many1(digit()))
-        .map(|x: String| x.parse::<i64>().unwrap())
+        .and_then(|x: String| {
+            x.parse::<i64>()
+                .map_err(|_| StreamErrorFor::<I>::message_static_message("register out of range"))
+        })
 }
 
 fn operand<I>() -> impl Parser<I, Output = Operand>
